@@ -79,6 +79,13 @@ def run(ctx, repo):
                                                                  for x in (n.value.left, n.value.right))]
             guarded = any('PAT_JUMPS.match' in ast.unparse(getattr(n, '_parent', None).test)
                           for n in later if isinstance(getattr(n, '_parent', None), ast.If))
+            # the same conversion written inside the arm itself (`return 0.01 * centimetres`): the arm is the PAT_JUMPS guard
+            in_arm = [b for st in parms[kind] for b in ast.walk(st) if isinstance(b, ast.BinOp) and isinstance(b.op, ast.Mult)
+                      and any(isinstance(x, ast.Constant) and x.value == 0.01 for x in (b.left, b.right))
+                      and not any(x is rc for x in ast.walk(b.left if isinstance(b.right, ast.Constant) else b.right)
+                                  if False)]
+            if in_arm and not later:
+                later, guarded = in_arm, True
             if not scale_in and later and guarded:
                 ctx.ok('R1', 'jumps arm rounds in centimetres and converts with 0.01 under the PAT_JUMPS guard')
             else:
@@ -151,22 +158,25 @@ def run(ctx, repo):
     else:
         ctx.finding('R3', '%s::performance::negative-target clamp' % ATH, ATH, perf.lineno,
                     'a negative target is not clamped to 0 before the power law: (negative / A) ** (1/X) is complex or raises')
-    # ---- R4 guard
-    guard = None
-    for i, st in enumerate(perf.body):
-        if isinstance(st, ast.If) and isinstance(st.test, ast.Compare) and isinstance(st.test.ops[0], ast.NotIn) \
-                and '_scoring_objects' in ast.unparse(st.test.comparators[0]) \
-                and any(isinstance(x, ast.Return) and (x.value is None or getattr(x.value, 'value', 1) is None) for x in st.body):
-            guard = i
-    first_sub = None
-    for i, st in enumerate(perf.body):
-        if any(isinstance(n, ast.Subscript) and ast.unparse(n.value) == '_scoring_objects' for n in ast.walk(st)):
-            first_sub = i
-            break
-    if guard is not None and (first_sub is None or guard < first_sub):
-        ctx.ok('R4', 'unknown key -> None precedes the lookup')
-    else:
+    # ---- R4 guard: every subscript of the table is reached only when `key in table` is known (an if arm or a guard clause)
+    from ..src import guards_of
+    subs_ = [n for n in ast.walk(perf) if isinstance(n, ast.Subscript) and ast.unparse(n.value) == '_scoring_objects' and isinstance(n.ctx, ast.Load)]
+
+    def member_known(n):
+        k = ast.unparse(n.slice)
+        for t, holds in guards_of(n, perf):
+            if isinstance(t, ast.Compare) and len(t.ops) == 1 and ast.unparse(t.left) == k and '_scoring_objects' in ast.unparse(t.comparators[0]):
+                if (isinstance(t.ops[0], ast.NotIn) and not holds) or (isinstance(t.ops[0], ast.In) and holds):
+                    return True
+        return False
+    unguarded = [n for n in subs_ if not member_known(n)]
+    if subs_ and not unguarded:
+        ctx.ok('R4', 'unknown key -> None precedes the lookup (%d subscript(s) of the table, each under `key in table`)' % len(subs_))
+    elif not subs_:
         ctx.finding('R4', '%s::performance::unknown-pair guard' % ATH, ATH, perf.lineno,
+                    'performance() has no guarded subscript of the shared table: an unknown gender/event pair is not answered with None')
+    else:
+        ctx.finding('R4', '%s::performance::unknown-pair guard' % ATH, ATH, unguarded[0].lineno,
                     'performance() looks the key up without the `key not in _scoring_objects: return None` guard in front')
     ctx.floor('kind arms compared between score() and performance()', 3, 3)
     # ---- R5: the forward function must be exact on the grid, else no inverse exists (shared with C01.R3)
